@@ -7,7 +7,6 @@
 #![allow(clippy::type_repetition_in_bounds)]
 
 use std::cmp::Ordering;
-use std::f64::consts::PI;
 use std::fmt::Write;
 use std::ops::Mul;
 
@@ -125,11 +124,11 @@ where
     /// neighbouring cells ensures there are no intersections of when tiling space.
     ///
     fn check_intersection(&self) -> bool {
-        let periodic_range = match (self.cell.a() / self.cell.b(), self.cell.angle()) {
-            (p, a) if 0.5 < p && p < 2. && f64::abs(a - PI / 2.) < 0.2 => 1,
-            (p, a) if 0.3 < p && p < 3. && f64::abs(a - PI / 2.) < 0.5 => 2,
-            _ => 3,
-        };
+        // Shapes can only intersect when their centers are within twice the enclosing radius.
+        // Each additional shell of periodic images is further away by at least the smallest
+        // height of the cell, which gives the number of shells that have to be checked.
+        let height = f64::min(self.cell.a(), self.cell.b()) * self.cell.angle().sin();
+        let periodic_range = f64::ceil(2. * self.shape.enclosing_radius() / height) as i64;
         // Compare within the current cell
         for (index, shape1) in self
             .cartesian_positions()
